@@ -328,6 +328,27 @@ def c_min(fn, which, target):
     return f
 
 
+def c_oc_aliases():
+    """ordered_covering() asked to go on minimising an already minimised
+    table: the caller supplies the alias dictionary of the earlier result
+    (000X stands for 0000 and 0001) - dictionary and the sets in it are
+    arguments like any other."""
+    def f():
+        from rig.routing_table import RoutingTableEntry as E, Routes as R
+        from rig.routing_table.ordered_covering import ordered_covering
+        M = 0xfffffff0
+
+        def build():
+            table = [E({R.north}, 0b0000, M | 0b1110),
+                     E({R.north}, 0b0010, M | 0b1110),
+                     E({R.south}, 0b1000, M | 0b1111)]
+            aliases = {(0b0000, M | 0b1110): {(0b0000, M | 0b1111),
+                                              (0b0001, M | 0b1111)}}
+            return table, aliases
+        return with_args(build, lambda t, a: ordered_covering(t, None, a))
+    return f
+
+
 def c_bitfield(which):
     def f():
         from rig.bitfield import BitField
@@ -544,6 +565,7 @@ def call_table():
         ("oc_unsorted", c_min("oc", 5, None)),
         ("mt_unsorted", c_min("mt", 5, None)),
         ("oc_t", c_min("oc", 0, 3)),
+        ("oc_aliases", c_oc_aliases()),
         ("mt", c_min("mt", 2, 1)),
         ("mts", c_min("mts", 1, None)),
         ("bitfield0", c_bitfield(0)),
